@@ -52,7 +52,7 @@ RULE = (
 
 QUICK_FULL_N = 40
 THOROUGH_FULL_N = 64
-STREAM_QUICK = []
+STREAM_QUICK = [(130, 3), (200, 3)]  # beyond any small-n special-casing (a shortcut for n > 128 was seeded once)
 STREAM_THOROUGH = [(100, 3), (150, 3), (200, 3), (300, 3), (100, 4), (1000, 2)]
 LATTICE_N = [1000, 2000, 3000, 5000]
 LATTICE_STRIDE_POINTS = 20000
@@ -535,8 +535,8 @@ def plan(tier, seed):
         width = max(20000, int(STREAM_RANGE * 75 / max(n, 75)))
         for lo in range(0, total, width):
             items.append({"kind": "stream", "n": n, "k": k, "lo": lo, "hi": min(total, lo + width)})
-    if tier == "thorough":
-        for n in LATTICE_N:
+    for n in (LATTICE_N if tier == "thorough" else LATTICE_N[:1]):
+        if True:
             parts = max(1, n // 250)
             for p in range(parts):
                 items.append({"kind": "lattice", "n": n, "part": p, "parts": parts})
